@@ -2,7 +2,7 @@
    Only statements closed by `exact`, each followed by Print Assumptions. *)
 From Coq Require Import ZArith List Bool.
 From MV Require Import Bvh.BvhDefs Bvh.BvhModel Bvh.BvhSmall Bvh.Sweep2Defs Bvh.Sweep2Model Bvh.Kd2Model.
-From MV Require Import Bvh.Karras3 Bvh.Kd2Stack.
+From MV Require Import Bvh.Karras3 Bvh.Kd2Stack Bvh.BvhTransform.
 Import ListNotations.
 Local Open Scope Z_scope.
 
@@ -126,3 +126,27 @@ Theorem query_stack_never_overflows :
     query_two_d_tree_stk points r = Some (query_two_d_tree points r).
 Proof. exact query_stack_safe. Qed.
 Print Assumptions query_stack_never_overflows.
+
+(* Collider::Transform with an axis-aligned matrix (every row of the linear part has one
+   non-zero entry: btransform is Box::Transform for such a matrix) maps every node box; if the
+   arrays passed the certificate before and the leaf boxes are non-empty, they pass it afterwards
+   (the image of a union is the union of the images), so box queries are again exact - now with
+   respect to the transformed leaf boxes. (UpdateBoxes recomputes the unions and is covered by
+   the certificate directly.) *)
+Theorem collisions_exact_after_transform :
+  forall children bbox n (T : atrans) (self : bool) (q : box) (qi : Z),
+    (forall i, 0 <= i < n -> bvalid (bbox (leaf2node i))) ->
+    wf_check children bbox n = true ->
+    let bbox' := fun k => btransform T (bbox k) in
+    wf_check children bbox' n = true /\
+    exists res, find_collision children bbox' self (fun b => overlap b q) qi (Z.to_nat (2 * n)) = Some res /\
+      NoDup res /\
+      forall i, In i res <-> (0 <= i < n /\ overlap (bbox' (leaf2node i)) q = true /\ ~ (self = true /\ i = qi)).
+Proof.
+  intros children bbox n T self q qi Hv Hw bbox'.
+  assert (Hw' : wf_check children bbox' n = true) by exact (transform_keeps_certificate children bbox n T Hv Hw).
+  split; [exact Hw'|].
+  exact (wf_check_collisions_exact children bbox' n self (fun b => overlap b q) qi
+           (fun a b => overlap_union_l a b q) (fun a b => overlap_union_r a b q) Hw').
+Qed.
+Print Assumptions collisions_exact_after_transform.
